@@ -52,6 +52,20 @@ def scenarios(draw):
             for _ in range(draw(st.integers(1, 3))):
                 out.append({'a': draw(st.sampled_from(['edit_status', 'annotate', 'edit_spec'])), 'obj': a['obj'], 'v': draw(st.integers(0, 9)),
                             'dt': draw(st.sampled_from([0.0, 0.05, 0.3, timeout / 2, timeout + 1.0]))})
+    if not instant and draw(st.integers(0, 2)) == 0:
+        # a re-listing while a slow handler runs: the list is served before the handler's patch is applied, and its (already stale)
+        # items are consumed after the patch has returned - a listed item is no echo of the patch
+        chg = [h for h in sc['spec']['handlers'] if h['kind'] in ('create', 'update')]
+        if chg:
+            draw(st.sampled_from(chg))['duration'] = draw(st.sampled_from([1.5, 3.0]))
+        out2 = []
+        for a in out:
+            out2.append(a)
+            if a['a'] in ('create', 'edit_spec') and draw(st.booleans()):
+                a['dt'] = draw(st.sampled_from([0.05, 0.3, 1.0]))
+                out2.append({'a': 'compact', 'dt': draw(st.sampled_from([0.0, 0.5, 3.0]))})
+        out = out2
+        sc['relisting_family'] = True
     sc['actions'] = out
     sc['instant'] = instant
     return sc
@@ -109,6 +123,8 @@ def check(run, res):
                         res.fail('C07/witness-delayed', f'{kind} handler for {c["name"]} rv={c["rv"]} ran at {c["t0"]}, the event was delivered at {t_d}')
                         break
         res.label('instant-subdomain')
+    if sc.get('relisting_family'):
+        res.label('relisting-while-a-slow-handler-runs')
     tm = {}
     for c in sim.trace:
         if c.get('k') == 'call' and c['kind'] == 'timer':
